@@ -15,7 +15,9 @@ Passing the wrong density / temperature / species / frame therefore changes the 
             "cx_order": [2, 0, 1],                       # optional: order of that list (indices into 1..M)
             "q0": {"cx": 1e-33, "pop": 0.3, "bes": 1e-34, "stop": 1e-14},      # optional amplitude scales
             "pmin": 0.3, "pmax": 1.2,                    # optional range of |exponent|
-            "override": {"cx|deuterium|2|carbon|6|(8, 7)": {"q0": 1e-33, "p": [0, 0, 0, 0, 0]}}}   # optional explicit entries
+            "override": {"cx|deuterium|2|carbon|6|(8, 7)": {"q0": 1e-33, "p": [0, 0, 0, 0, 0]}},   # optional explicit entries
+            "cache_lists": true}                         # optional: beam_cx_pec() hands out the SAME list object per key
+                                                         # (a caching provider); `returned` keeps (list, snapshot) pairs
 
 Neutral targets (charge 0) get the provider's documented null behaviour (OpenADAS(missing_rates_return_null=True)):
 a rate object whose evaluate() returns 0.0 for any argument (incl. inf / nan).
@@ -197,18 +199,31 @@ class MockBeamAtomicData(AtomicData):
         self.rates = BeamRates(spec)
         self.log = log
         self.requests = []
+        self.returned = []                 # (list object handed out by beam_cx_pec, tuple snapshot of its content)
+        self._cx_cache = {} if spec.get("cache_lists") else None
 
     def wavelength(self, ion, charge, transition):
         self.requests.append(("wavelength", BeamRates.wl_key(ion, charge, transition)))
         return self.rates.wavelength(ion, charge, transition)
 
     def beam_cx_pec(self, donor_ion, receiver_ion, receiver_charge, transition):
+        ckey = BeamRates.cx_key(donor_ion, 0, receiver_ion, receiver_charge, transition)
+        if self._cx_cache is not None and ckey in self._cx_cache:
+            self.requests.append(("beam_cx_pec", ckey))
+            return self._cx_cache[ckey]
         out = []
         for m in self.rates.metastables():
             key = BeamRates.cx_key(donor_ion, m, receiver_ion, receiver_charge, transition)
             self.requests.append(("beam_cx_pec", key))
             out.append(MockBeamCXPEC(m, self.rates.function("cx", key), key, self.log))
+        self.returned.append((out, tuple(out)))
+        if self._cx_cache is not None:
+            self._cx_cache[ckey] = out
         return out
+
+    def lists_intact(self):
+        """True if no list handed out by beam_cx_pec() has been modified by its consumer."""
+        return all(len(lst) == len(snap) and all(a is b for a, b in zip(lst, snap)) for lst, snap in self.returned)
 
     def beam_population_rate(self, beam_ion, metastable, plasma_ion, charge):
         key = BeamRates.pop_key(beam_ion, metastable, plasma_ion, charge)
